@@ -205,6 +205,15 @@ def recipes(group):
             c2[role]['expires'] = 2
             sc3['cycles'] = [c1, c2]
             out.append((f'{role} metadata stored while fresh expires before the next cycle, which is served the same version again: must fail', sc3, lambda r: r['cycles'][0]['ok'] and r['cycles'][1]['ok']))
+    if kind in ('one-judgement', 'expired-err-justified', 'ok-final-not-expired') and role == 'root':
+        # shipped v1 and final v3 are fine, the stepping stone v2 expired an hour ago: only the final root is judged
+        sc = base_scenario()
+        sc['roots'].append(dict(sc['roots'][1], version=3))
+        sc['roots'][1]['expires'] = -3600
+        c = cyc(); c['serve_roots'] = {'2': 1, '3': 2}
+        sc['cycles'] = [c]
+        out.append(('root chain 1 -> 2 -> 3 whose intermediate root 2 expired an hour ago while the final root 3 is valid: the cycle must succeed on root 3', sc,
+                    lambda r: not r['cycles'][0]['ok'] or r['cycles'][0].get('versions', {}).get('root') != 3))
     if kind in ('expired-err-justified',) and role:
         sc = base_scenario(); c = cyc()
         if role == 'root':
